@@ -137,13 +137,16 @@ func ParsePHC(s string) (*PHC, error) {
 	// Decode salt (expect 16 bytes to fit [16]byte)
 	saltB64 := parts[3]
 	var salt [16]byte
-	n, err := base64.RawStdEncoding.Decode(salt[:], []byte(saltB64))
+	// Decode into a slice of the right size first: decoding a longer salt straight into the
+	// 16-byte array indexes past its end and panics.
+	saltBytes, err := base64.RawStdEncoding.DecodeString(saltB64)
 	if err != nil {
 		return nil, fmt.Errorf("invalid salt: %w", err)
 	}
-	if n != 16 {
+	if n := len(saltBytes); n != 16 {
 		return nil, fmt.Errorf("invalid salt length: got %d, want 16", n)
 	}
+	copy(salt[:], saltBytes)
 
 	// Decode hash
 	hashB64 := parts[4]
